@@ -114,6 +114,14 @@ def clear (m : Multi) : Multi × List TOp :=
   let (ops, llc) := drawToTerm tt.fx ds tt.W tt.H tt.llc
   ({ m with z := 0, stale := true, target := { tt with ds := ds.after tt.fx tt.W tt.H tt.llc, llc := llc } }, ops)
 
+/-- `MultiProgress::set_draw_target` with a new terminal target of the same geometry and rate: nothing
+is painted or erased (`disconnect` does nothing for a terminal target); the new target starts with an
+empty frame and a fresh limiter. The repaired code also forgets the zombie rows, which are on the old
+target's screen, and marks the frame stale. -/
+def retarget (m : Multi) (now : Nat) : Multi :=
+  let tt : TermTarget := { m.target with llc := 0, ds := {}, limiter := m.target.limiter.map (fun p => (p.1, ({ cap := 20, prev := now } : Limiter.St))) }
+  if m.target.fx.fretarget then { m with target := tt, z := 0, stale := true } else { m with target := tt }
+
 def suspend (m : Multi) (out : List Text) (now : Nat) : Multi × List TOp :=
   let (m, ops1) := m.clear
   let (m, ops2) := m.draw true none now
@@ -143,6 +151,7 @@ inductive MOp where
       -- loc: 0 end, 1 index arg, 2 fromBack arg, 3 before bar arg, 4 after bar arg
   | remove (k : Nat)
   | mpPrintln (t : Text) | mpClear | mpSuspend (out : List Text) | align (bottom : Bool)
+  | retarget
   | bar (k : Nat) (op : BarOp)
 deriving Repr
 
@@ -240,6 +249,7 @@ def step (w : MWorld) (op : MOp) : MWorld :=
     | .mpClear => let (m, ops) := w.multi.clear; ({ w with multi := m }, ops)
     | .mpSuspend out => let (m, ops) := w.multi.suspend out w.now; ({ w with multi := m }, ops)
     | .align bottom => ({ w with multi := { w.multi with alignment := if bottom then .bottom else .top } }, [])
+    | .retarget => ({ w with multi := w.multi.retarget w.now }, [])
     | .bar k op => w.barStep k op
   let (t, ss) := execSnap w.term ops
   { w with term := t, snaps := w.snaps ++ ss, calls := w.calls + ops.length }
